@@ -11,7 +11,8 @@ from __future__ import annotations
 import ast
 
 from ..astutil import body_walk, call_name, call_recv, calls_in, kwarg, names_in, norm, strip_await, walk_no_nested
-from .common import where
+from .. import flow
+from .common import parmap, where
 
 PROP = "C15"
 EXPLANATION = (
@@ -287,11 +288,62 @@ def r15_5(ctx):
     ctx.floor("R15.5", n, 2, "callers of Mailbox.copy() with a command's set")
 
 
+def r15_6(ctx):
+    """The maximum a set is interpreted against is the last element of `uids` / `msg_keys`.  A mailbox may be empty: every
+    read of `<list>[-1]` in mbox.py happens where the list is known not to be empty - under a test of the list itself (or of
+    num_msgs, its length), as a statement guard, a conditional expression or an early return.  (Mailbox.copy() read
+    `self.msg_keys[-1]` unguarded: `UID COPY 1:* x` in an empty mailbox was answered BAD Unhandled exception while UID FETCH /
+    UID STORE / UID SEARCH with the same set answer OK.)"""
+    p = ctx.p
+    n = 0
+    for fi in p.funcs_in("mbox"):
+        subs = [x for x in ast.walk(fi.node) if isinstance(x, ast.Subscript) and isinstance(x.ctx, ast.Load) and norm(x.value) in ("self.uids", "self.msg_keys") and isinstance(x.slice, ast.UnaryOp) and isinstance(x.slice.op, ast.USub) and isinstance(x.slice.operand, ast.Constant) and x.slice.operand.value == 1]
+        if not subs:
+            continue
+        ctx.analysed(fi)
+        par = parmap(fi)
+        g = ctx.cfg(fi)
+        for x in subs:
+            n += 1
+            lst = norm(x.value)
+            names = {lst, "self.num_msgs", f"len({lst})"}
+
+            def mentions(t):
+                return any(norm(y) in names for y in ast.walk(t))
+
+            guarded = False
+            cur = x
+            while cur in par and not guarded:
+                up = par[cur]
+                if isinstance(up, ast.IfExp) and cur is up.body and mentions(up.test):
+                    guarded = True
+                if isinstance(up, (ast.If, ast.While)) and cur in up.body and mentions(up.test):
+                    guarded = True
+                if isinstance(up, ast.BoolOp) and isinstance(up.op, ast.And) and any(mentions(v) for v in up.values[: up.values.index(cur)] if cur in up.values):
+                    guarded = True
+                cur = up
+            if not guarded:
+                # an earlier `if not <list>: return/raise` dominates the read
+                st = x
+                while not isinstance(st, ast.stmt):
+                    st = par[st]
+                tests = {nd.id for nd in g.nodes if nd.kind == "test" and nd.ast is not None and mentions(nd.ast) and isinstance(nd.stmt, ast.If) and any(isinstance(b, (ast.Return, ast.Raise, ast.Continue)) for b in nd.stmt.body)}
+                nodes = g.nodes_for(st)
+                if nodes and tests and flow.dominated_by(g, nodes[0], lambda z: z in tests) is None:
+                    guarded = True
+            if guarded:
+                ctx.ok("R15.6", where(fi), f"{lst}[-1] read where the list is known not to be empty", nontrivial=False)
+            else:
+                ctx.bad("R15.6", fi.module, fi.qual, f"{lst}[-1]", f"`{lst}[-1]` is read with nothing on the way that excludes an empty mailbox: IndexError - the command is answered `BAD Unhandled exception` where the same set in FETCH / STORE / SEARCH names no message and is answered OK", x.lineno)
+    ctx.floor("R15.6", n, 5, "reads of the last UID / message key")
+
+
 def run(ctx):
     ctx.do(r15_1)
     ctx.do(r15_3)
     ctx.do(r15_4)
     ctx.do(r15_5)
+    ctx.do(r15_6)
     from . import c05, c06, c10
     ctx.do(c10.r10_4)
     ctx.do(c10.r10_4_units)
